@@ -120,6 +120,16 @@ var orderSpecs = []orderSpec{
 		calls: map[string]argMode{"atomic.CompareAndSwapUint32": allArgs, "closeClients": allArgs, "l.listen.Close": noArgs, "l.Lock": noArgs, "l.Unlock": noArgs},
 	},
 	{
+		// C41: a buffer is reset BEFORE it is handed back to the pool (afterwards it may already belong to someone
+		// else), and the capped pool tests the capacity before it keeps a buffer
+		fn: "mempool.(*Buffer).Put", def: "bufferPutOrder",
+		calls: map[string]argMode{"x.Reset": noArgs, "b.pool.Put": allArgs},
+	},
+	{
+		fn: "mempool.(*BufferWithCap).Put", def: "bufferWithCapPutOrder",
+		calls: map[string]argMode{"x.Cap": noArgs, "b.bp.Put": allArgs, "x.Reset": noArgs},
+	},
+	{
 		fn: "mqtt.(*Client).WriteLoop", def: "writeLoopOrder",
 		calls: map[string]argMode{
 			"cl.WritePacket": allArgs, "cl.Lock": noArgs, "cl.Unlock": noArgs, "cl.flushOutbuf": noArgs, "atomic.AddInt32": allArgs,
